@@ -92,7 +92,18 @@ func checkC19(w *World, r *Report) {
 			r.Check(ok, "PREFIX-RANGE", en+":"+parts[0]+":"+parts[1], parts[2], fmt.Sprintf("%s: the ranged walk of %s uses the prefix of the operated auction's id", en, parts[0]), pc.seen[k])
 		}
 	}
-	checkScanFilter(w, r, tm, "SCAN-FILTER")
+	{
+		// what C19 needs of the unprefixed scan is that foreign elements are not used; that the scan goes on after a
+		// foreign element is C05's concern (the cumulative allowance)
+		saveKeep := r.keep
+		own := func(_, construct string) bool { return !strings.HasSuffix(construct, ":skip-continues") }
+		r.keep = own
+		if saveKeep != nil {
+			r.keep = func(rule, construct string) bool { return saveKeep(rule, construct) && own(rule, construct) }
+		}
+		checkScanFilter(w, r, tm, "SCAN-FILTER")
+		r.keep = saveKeep
+	}
 	checkNoMut(w, r, tm, "NO-MUT")
 
 	// ---------------------------------------------------------------- IMMUT-FIELDS
@@ -382,6 +393,9 @@ func (p *prefixCollector) OnInstr(x *Explorer, fr *Frame, in ssa.Instruction, st
 		return st // unprefixed: SCAN-FILTER
 	}
 	rt := x.TM.OperandAt(fr, in, args[2])
+	if u := uncell(rt); u.Op == "const" && u.Name == "nil" {
+		return st // a collector that is handed a nil range by its caller: unprefixed (SCAN-FILTER where it matters)
+	}
 	key := fmt.Sprintf("%s|%s|%s", e.Coll, fnName(in.Parent()), p.w.instrPos(in))
 	var id *Term
 	rt.Walk(func(t *Term) bool {
